@@ -1834,7 +1834,7 @@ func ruleP16(r *Run) {
 			r.Undec(key, fd.Pos(), "the flag returned by parseHeader was not found")
 			continue
 		}
-		delivered, reassigned := false, false
+		delivered, reassigned, unmatchedToo := false, false, false
 		var errObj types.Object
 		if fd.Type.Results != nil {
 			for _, f := range fd.Type.Results.List {
@@ -1869,21 +1869,44 @@ func ruleP16(r *Run) {
 					return true
 				})
 			}
-			// afterwards the connection-level error is something else (or nothing)
-			if blk, ok := parents[send].(*ast.BlockStmt); ok {
-				after := false
-				for _, st := range blk.List {
-					if st == ast.Stmt(send) {
-						after = true
-						continue
-					}
-					if as, ok := st.(*ast.AssignStmt); ok && after && len(as.Lhs) == 1 && errObj != nil && identObj(info, as.Lhs[0]) == errObj {
-						reassigned = true
-					}
+			// afterwards the connection-level error is something else (or nothing): an assignment to the error result behind
+			// the send, still inside the branch for flagged frames; and also for a frame that matches NO pending call
+			// (the assignment does not depend on what loadAndDelete found)
+			var loadedObj types.Object
+			if ifs, ok := parents[parents[send]].(*ast.IfStmt); ok && ifs.Init != nil {
+				if as, ok := ifs.Init.(*ast.AssignStmt); ok && len(as.Lhs) == 2 {
+					loadedObj = identObj(info, as.Lhs[1])
 				}
 			}
+			ast.Inspect(fd.Body, func(k ast.Node) bool {
+				as, ok := k.(*ast.AssignStmt)
+				if !ok || as.Pos() < send.Pos() || len(as.Lhs) != 1 || errObj == nil || identObj(info, as.Lhs[0]) != errObj {
+					return true
+				}
+				flagged, onLoaded := false, false
+				for _, fc := range factsWithSwitch(parents, as) {
+					if id, ok := ast.Unparen(fc.e).(*ast.Ident); ok {
+						if info.Uses[id] == okObj && fc.neg {
+							flagged = true
+						}
+						if loadedObj != nil && info.Uses[id] == loadedObj {
+							onLoaded = true
+						}
+					}
+				}
+				if flagged {
+					reassigned = true
+					if !onLoaded {
+						unmatchedToo = true
+					}
+				}
+				return true
+			})
 			return true
 		})
+		if delivered && reassigned {
+			r.Check(unmatchedToo, key+", also when no call is waiting for it", fd.Pos(), "the reassignment does not depend on loadAndDelete", "the error of the connection is replaced only when the frame's call was still pending: an error frame for a call that has given up (time-out, cancel) or a stray one keeps its own error as the error of the receive loop - the connection is closed with it and every OTHER pending call fails with that text (over UDP the client socket is closed); C09: a response that matches no pending call is discarded without affecting any caller")
+		}
 		r.Check(delivered && reassigned, key, fd.Pos(), "loadAndDelete(index) <- error; then another error (or none) for the connection", "the branch for a frame with the error flag only sets the error of the receive loop: the connection is closed with it and EVERY pending call fails with the error text of the one call the frame answers (a concurrent slow(42) fails with `unsupported type: chan int` of another call; over UDP the client socket is closed for one refused datagram)")
 	}
 }
